@@ -803,17 +803,22 @@ def history_list_oracle(case, obs):
     for j, (step, so) in enumerate(zip(case['steps'], obs['history'])):
         op = step.get('op', 'solve_t')
         if op == 'new':
+            exp.pop(step['on'], None)        # a brand-new instance under that handle: the class lists again
             continue
         if cls is None:
             cls = so['class_lists']
         on = step['on']
         if on not in exp:
             exp[on] = [list(cls[0]), list(cls[1])]
-        if op == 'edit' and so.get('ok'):
+        if op == 'edit':
             k = 0 if step['list'] == 'endogenous' else 1
             if step['action'] == 'append':
                 exp[on][k].append(step['name'])
-            else:
+            elif (step['name'] in exp[on][k]) != bool(so.get('ok')):
+                fails.append({'sig': 'C04|history|instance-lists-leak', 'what': 'step %d: %s.remove(%r) on instance %s %s although the list should hold %s'
+                              % (j + 1, step['list'], step['name'], on, 'succeeded' if so.get('ok') else 'failed', exp[on][k])})
+                break
+            elif so.get('ok'):
                 exp[on][k].remove(step['name'])
         if [so['endo_names'], so['check_names']] != exp[on]:
             fails.append({'sig': 'C04|history|instance-lists-leak', 'what': 'step %d: instance %s holds endogenous/check = %s, expected %s (class lists plus its own edits)'
@@ -933,7 +938,10 @@ def correspond(cases, obs, tag, tier):
             continue
         if o.get('prog') is None:        # outside the translated fragment: oracle only
             continue
-        its = k_items(c, o)
+        try:
+            its = k_items(c, o)
+        except Exception:         # noqa: BLE001  an observation that cannot be rendered is a disagreement, not a crash
+            its = None
         if its is None:
             bad.append(i)          # an access with a non-integer index: outside the model altogether
             continue
@@ -1004,7 +1012,7 @@ def guard(case, obs):
         and obs['out'][1] == 'SolutionError' and not obs['events']
 
 
-def oracle(case, obs):
+def _oracle(case, obs):
     fails = []
 
     def bad(sig, what):
@@ -1020,7 +1028,7 @@ def oracle(case, obs):
         fails += history_list_oracle(case, obs)
         seen = set()
         for j, (sc_, so_) in enumerate(history_steps(case, obs)):
-            for f in oracle(sc_, so_):
+            for f in _oracle(sc_, so_):
                 if f['sig'] not in seen:
                     seen.add(f['sig'])
                     fails.append({'sig': f['sig'], 'what': 'call %d of the history (solve_t(%d)): %s' % (j + 1, sc_['t'], f['what'])})
@@ -1228,6 +1236,16 @@ def oracle(case, obs):
             bad('read-wrapped' if kind == 'R' else 'write-wrapped', 'solve() performed an access at index %r (negative or out of range: wrapped)' % (i,))
             break
     return fails
+
+
+def oracle(case, obs):
+    """the property judged on one observation; an observation so far off that it cannot even be judged (a name missing from the
+    model, a malformed result) is itself reported, never a crash of the check"""
+    try:
+        return _oracle(case, obs)
+    except Exception as e:       # noqa: BLE001
+        return [{'sig': 'C04|observation-cannot-be-judged|' + type(e).__name__,
+                 'what': 'the observation of this call is not of the expected form (%s: %s)' % (type(e).__name__, str(e)[:80])}]
 
 
 def nontrivial(case, obs):
